@@ -63,8 +63,8 @@ theorem sigCount_append (a b : List Ev) : sigCount (a ++ b) = sigCount a + sigCo
   | nil => simp [sigCount]
   | cons e r ih => cases e <;> simp [sigCount, ih] <;> omega
 
-theorem pcRun_append (pc : PC) (a b : List Ev) :
-    pcRun pc (a ++ b) = (pcRun pc a).bind (fun pc' => pcRun pc' b) := by
+theorem pcRun_append (L : Layout) (pc : PC) (a b : List Ev) :
+    pcRun L pc (a ++ b) = (pcRun L pc a).bind (fun pc' => pcRun L pc' b) := by
   induction a generalizing pc with
   | nil => simp [pcRun]
   | cons e r ih =>
@@ -72,11 +72,11 @@ theorem pcRun_append (pc : PC) (a b : List Ev) :
     | sig g => simp [pcRun, ih]
     | step m =>
       simp only [List.cons_append, pcRun]
-      cases pcNext pc m with
+      cases pcNext L pc m with
       | none => simp
       | some pc' => simp [ih]
 
-theorem pcRun_steps (pc : PC) (evs : List Ev) : pcRun pc evs = pcRunSteps pc (steps evs) := by
+theorem pcRun_steps (L : Layout) (pc : PC) (evs : List Ev) : pcRun L pc evs = pcRunSteps L pc (steps evs) := by
   induction evs generalizing pc with
   | nil => rfl
   | cons e r ih =>
@@ -84,7 +84,7 @@ theorem pcRun_steps (pc : PC) (evs : List Ev) : pcRun pc evs = pcRunSteps pc (st
     | sig g => simp [pcRun, steps, ih]
     | step m =>
       simp only [pcRun, steps, pcRunSteps]
-      cases pcNext pc m with
+      cases pcNext L pc m with
       | none => rfl
       | some pc' => simp [ih]
 
@@ -117,6 +117,7 @@ def Inv (pc : PC) (s : St) : Prop :=
   | .cI => s.handler = 0 ∧ s.msgSize = 0 ∧ s.intr = .obj ∧ s.alive = true
   | .cP => s.handler = 0 ∧ s.msgSize = 0 ∧ s.intr = .obj ∧ s.alive = true ∧ s.msgPtr = .live
   | .cZ => s.handler = 0 ∧ s.msgSize = msgLen ∧ s.intr = .obj ∧ s.alive = true ∧ s.msgPtr = .live
+  | .c0 => s.handler = 0 ∧ s.msgSize = msgLen ∧ s.intr = .obj ∧ s.alive = true ∧ s.msgPtr = .live
   | .cS1 => s.handler = 0 ∧ s.msgSize = msgLen ∧ s.intr = .obj ∧ s.alive = true ∧ s.msgPtr = .live ∧
       s.dispInt = true
   | .cS2 => s.handler = 0 ∧ s.msgSize = msgLen ∧ s.intr = .obj ∧ s.alive = true ∧ s.msgPtr = .live ∧
@@ -124,6 +125,12 @@ def Inv (pc : PC) (s : St) : Prop :=
   | .live r => regOK r s ∧ s.msgSize = msgLen ∧ s.intr = .obj ∧ s.alive = true ∧ s.msgPtr = .live ∧
       s.dispInt = true ∧ s.dispTerm = true
   | .mid r h => s.handler = h ∧ (∀ h0 d0, r = some (h0, d0) → s.data = d0) ∧
+      s.msgSize = msgLen ∧ s.intr = .obj ∧ s.alive = true ∧ s.msgPtr = .live ∧
+      s.dispInt = true ∧ s.dispTerm = true
+  | .clr => s.handler = 0 ∧
+      s.msgSize = msgLen ∧ s.intr = .obj ∧ s.alive = true ∧ s.msgPtr = .live ∧
+      s.dispInt = true ∧ s.dispTerm = true
+  | .dat d => s.handler = 0 ∧ s.data = d ∧
       s.msgSize = msgLen ∧ s.intr = .obj ∧ s.alive = true ∧ s.msgPtr = .live ∧
       s.dispInt = true ∧ s.dispTerm = true
   | .dI r => regOK r s ∧ s.msgSize = msgLen ∧ s.intr = .self ∧ s.alive = true ∧ s.msgPtr = .live ∧
@@ -138,10 +145,10 @@ def Inv (pc : PC) (s : St) : Prop :=
 theorem inv_init : Inv .idle init := by
   simp [Inv, init]
 
-theorem inv_step (pc pc' : PC) (s : St) (m : Micro) (hi : Inv pc s) (hn : pcNext pc m = some pc') :
+theorem inv_step (L : Layout) (pc pc' : PC) (s : St) (m : Micro) (hi : Inv pc s) (hn : pcNext L pc m = some pc') :
     Inv pc' (applyMicro s m) := by
-  cases pc <;> cases m <;> simp [pcNext] at hn <;> subst hn <;>
-    simp_all [Inv, applyMicro, regOK]
+  cases pc <;> cases m <;> simp only [pcNext] at hn <;> (try split at hn) <;> (try split at hn) <;>
+    simp at hn <;> (try subst hn) <;> simp_all [Inv, applyMicro, regOK]
   · intro h0 d0 hr
     subst hr
     exact hi.2.1.2
@@ -196,8 +203,8 @@ theorem inv_sig (md : Mode) (pc : PC) (s : St) (g : Sig) (hi : Inv pc s)
 
 /-- master invariant: along any event sequence whose program steps follow the lifecycle automaton, as long as
     the process has not terminated, the state satisfies the invariant of the current program point -/
-theorem inv_run (md : Mode) (evs : List Ev) (pc pc' : PC) (s : St) (hi : Inv pc s)
-    (hp : pcRun pc evs = some pc') (hh : (run md s evs).1.halted = none) : Inv pc' (run md s evs).1 := by
+theorem inv_run (L : Layout) (md : Mode) (evs : List Ev) (pc pc' : PC) (s : St) (hi : Inv pc s)
+    (hp : pcRun L pc evs = some pc') (hh : (run md s evs).1.halted = none) : Inv pc' (run md s evs).1 := by
   induction evs generalizing pc s with
   | nil => simp [pcRun] at hp; subst hp; simpa [run] using hi
   | cons e r ih =>
@@ -211,12 +218,12 @@ theorem inv_run (md : Mode) (evs : List Ev) (pc pc' : PC) (s : St) (hi : Inv pc 
       exact ih pc _ (inv_sig md pc s g hi h1) hp hh
     | step m =>
       simp only [pcRun] at hp
-      cases hn : pcNext pc m with
+      cases hn : pcNext L pc m with
       | none => simp [hn] at hp
       | some pc1 =>
         simp only [hn] at hp
         rw [exec_step md s m h0] at hh ⊢
-        exact ih pc1 _ (inv_step pc pc1 s m hi hn) hp hh
+        exact ih pc1 _ (inv_step L pc pc1 s m hi hn) hp hh
 
 theorem run_split (md : Mode) (s : St) (pre : List Ev) (e : Ev) (post : List Ev) :
     (run md s (pre ++ e :: post)).1 = (run md (exec md (run md s pre).1 e).1 post).1 := by
@@ -294,6 +301,176 @@ theorem never_killed (md : Mode) (evs : List Ev) (s : St)
     · right
       rw [exec_halted md s e (by simp [hx])]
       exact hx
+
+/-- events that store neither to `stop_` nor to the solver's interrupter pointer -/
+def Neutral : Ev → Bool
+  | .step .cStop0 => false
+  | .step .dStop1 => false
+  | .step .cIntr => false
+  | .step .dIntr => false
+  | .step .dFree => false
+  | _ => true
+
+theorem neutral_of_bodyOrSignalCall (e : Ev) (h : BodyOrSignalCall e = true) : Neutral e = true := by
+  cases e with
+  | sig g => rfl
+  | step m => cases m <;> simp_all [BodyOrSignalCall, Body, Neutral]
+
+/-- over events that do not store to `stop_`: as long as the process runs, `stop_` has counted every delivered
+    signal (whatever the dispositions were: an unhandled signal would have killed the process) -/
+theorem neutral_run (md : Mode) (evs : List Ev) (s : St) (hn : ∀ e ∈ evs, Neutral e = true)
+    (hh : (run md s evs).1.halted = none) :
+    (run md s evs).1.stop = s.stop + sigCount evs ∧ (run md s evs).1.intr = s.intr := by
+  induction evs generalizing s with
+  | nil => simp [run, sigCount]
+  | cons e r ih =>
+    have hnr : ∀ e ∈ r, Neutral e = true := fun e he => hn e (List.mem_cons_of_mem _ he)
+    have hne : Neutral e = true := hn e (List.mem_cons_self)
+    rw [run_cons] at hh ⊢
+    have h1 : (exec md s e).1.halted = none := run_halted_of md _ r hh
+    have h0 : s.halted = none := exec_halted_of md s e h1
+    have := ih (exec md s e).1 hnr hh
+    cases e with
+    | step m =>
+      rw [exec_step md s m h0] at this h1 hh ⊢
+      have : (applyMicro s m).stop = s.stop ∧ (applyMicro s m).intr = s.intr := by
+        cases m <;> simp_all [Neutral, applyMicro]
+      simp_all [sigCount]
+    | sig g =>
+      rw [exec_sig md s g h0] at this h1 hh ⊢
+      cases hd : s.disp g with
+      | false => rw [deliver_killed md s g hd] at h1; simp at h1
+      | true =>
+        by_cases hs : s.stop ≤ 1
+        · rw [deliver_ok md s g hd hs] at this ⊢
+          simp only [sigCount] at this ⊢
+          obtain ⟨t1, t2⟩ := this
+          exact ⟨by omega, t2⟩
+        · have := (deliver_exit md s g hd (by omega)).1
+          rw [this] at h1; simp at h1
+
+/-- in a layout whose constructor stores `stop_ = 0` before calling `signal()`, everything a driver can do
+    between a `signal()` call and the destructor is a body event or the other `signal()` call: in particular there
+    is no store to `stop_` any more -/
+theorem ctorfix_tail (L : Layout) (hL : L.ctorStopFirst = true) (post : List Ev) (pc pc' : PC)
+    (hin : pc.installedInt = true) (hp : pcRun L pc post = some pc') (hnd : ∀ e ∈ post, isDtorStep e = false) :
+    (∀ e ∈ post, BodyOrSignalCall e = true) ∧ pc'.installedInt = true := by
+  induction post generalizing pc with
+  | nil => simp [pcRun] at hp; subst hp; simp [hin]
+  | cons e r ih =>
+    have hndr : ∀ e ∈ r, isDtorStep e = false := fun e he => hnd e (List.mem_cons_of_mem _ he)
+    have hnde := hnd e (List.mem_cons_self)
+    cases e with
+    | sig g =>
+      simp only [pcRun] at hp
+      have := ih pc hin hp hndr
+      exact ⟨fun e he => by
+        rcases List.mem_cons.mp he with rfl | h
+        · rfl
+        · exact this.1 e h, this.2⟩
+    | step m =>
+      simp only [pcRun] at hp
+      cases hn : pcNext L pc m with
+      | none => simp [hn] at hp
+      | some pc1 =>
+        simp only [hn] at hp
+        have key : BodyOrSignalCall (.step m) = true ∧ pc1.installedInt = true := by
+          cases pc <;> cases m <;> simp only [pcNext] at hn <;> (try split at hn) <;> (try split at hn) <;>
+            simp at hn <;> (try subst hn) <;>
+            simp_all [PC.installedInt, PC.installed, BodyOrSignalCall, Body, isDtorStep]
+        have := ih pc1 key.2 hp hndr
+        exact ⟨fun e he => by
+          rcases List.mem_cons.mp he with rfl | h
+          · exact key.1
+          · exact this.1 e h, this.2⟩
+
+/-- the same, starting right after the repaired constructor's `stop_ = 0` (before `signal(SIGINT, …)`) -/
+theorem ctorfix_tail0 (L : Layout) (hL : L.ctorStopFirst = true) (post : List Ev) (pc' : PC)
+    (hp : pcRun L .c0 post = some pc') (hnd : ∀ e ∈ post, isDtorStep e = false) :
+    ∀ e ∈ post, BodyOrSignalCall e = true := by
+  induction post with
+  | nil => simp
+  | cons e r ih =>
+    have hndr : ∀ e ∈ r, isDtorStep e = false := fun e he => hnd e (List.mem_cons_of_mem _ he)
+    cases e with
+    | sig g =>
+      simp only [pcRun] at hp
+      intro e he
+      rcases List.mem_cons.mp he with rfl | h
+      · rfl
+      · exact ih hp hndr e h
+    | step m =>
+      simp only [pcRun] at hp
+      cases hn : pcNext L .c0 m with
+      | none => simp [hn] at hp
+      | some pc1 =>
+        simp only [hn] at hp
+        have key : m = .cSigInt ∧ pc1 = .cS1 := by
+          cases m <;> simp only [pcNext] at hn <;> (try split at hn) <;> simp_all
+        obtain ⟨rfl, rfl⟩ := key
+        have := (ctorfix_tail L hL r .cS1 pc' (by rfl) hp hndr).1
+        intro e he
+        rcases List.mem_cons.mp he with rfl | h
+        · rfl
+        · exact this e h
+
+/-- in a layout whose `SetHandler` clears `handler_` first, the pinned window state `mid` is unreachable -/
+theorem regfix_no_mid (L : Layout) (hL : L.regClearFirst = true) (evs : List Ev) (pc pc' : PC)
+    (h0 : ∀ r h, pc ≠ .mid r h) (hp : pcRun L pc evs = some pc') : ∀ r h, pc' ≠ .mid r h := by
+  induction evs generalizing pc with
+  | nil => simp [pcRun] at hp; subst hp; exact h0
+  | cons e r ih =>
+    cases e with
+    | sig g => simp only [pcRun] at hp; exact ih pc h0 hp
+    | step m =>
+      simp only [pcRun] at hp
+      cases hn : pcNext L pc m with
+      | none => simp [hn] at hp
+      | some pc1 =>
+        simp only [hn] at hp
+        refine ih pc1 ?_ hp
+        intro r' h' heq
+        subst heq
+        cases pc <;> cases m <;> simp only [pcNext] at hn <;> (try split at hn) <;> (try split at hn) <;>
+          simp_all
+
+/-- with at most two signals counted on top of `stop_`, `_exit(1)` is never reached -/
+theorem no_exit_run (md : Mode) (evs : List Ev) (s : St) (hn : ∀ e ∈ evs, Neutral e = true)
+    (h2 : s.stop + sigCount evs ≤ 2) (hx : s.halted ≠ some .exit1) : (run md s evs).1.halted ≠ some .exit1 := by
+  induction evs generalizing s with
+  | nil => simpa [run] using hx
+  | cons e r ih =>
+    have hnr : ∀ e ∈ r, Neutral e = true := fun e he => hn e (List.mem_cons_of_mem _ he)
+    have hne : Neutral e = true := hn e (List.mem_cons_self)
+    rw [run_cons]
+    cases hh : s.halted with
+    | some x =>
+      rw [exec_halted md s e (by simp [hh]), run_halted md s r (by simp [hh])]
+      exact hx
+    | none =>
+      cases e with
+      | step m =>
+        rw [exec_step md s m hh]
+        apply ih _ hnr
+        · show (applyMicro s m).stop + sigCount r ≤ 2
+          have : (applyMicro s m).stop = s.stop := by cases m <;> simp_all [Neutral, applyMicro]
+          simp only [sigCount] at h2; omega
+        · show (applyMicro s m).halted ≠ some .exit1
+          rw [applyMicro_halted, hh]; simp
+      | sig g =>
+        rw [exec_sig md s g hh]
+        simp only [sigCount] at h2
+        cases hd : s.disp g with
+        | false =>
+          rw [deliver_killed md s g hd, run_halted md _ r (by simp)]
+          simp
+        | true =>
+          rw [deliver_ok md s g hd (by omega)]
+          apply ih _ hnr
+          · show s.stop + 1 + sigCount r ≤ 2
+            omega
+          · show s.halted ≠ some .exit1
+            simp [hh]
 
 theorem stop_le_two (md : Mode) (evs : List Ev) (s : St) (h2 : s.stop ≤ 2) : (run md s evs).1.stop ≤ 2 := by
   induction evs generalizing s with
